@@ -217,6 +217,7 @@ class Mailbox:
     S2B.upon(close, enter=S3B, outputs=[record_mood_and_RC_tx_close])
 
     S3A.upon(connected, enter=S3B, outputs=[RC_tx_close])
+    S3A.upon(add_message, enter=S3A, outputs=[])
     S3B.upon(lost, enter=S3A, outputs=[])
     S3B.upon(rx_closed, enter=S4B, outputs=[T_mailbox_done])
     S3B.upon(add_message, enter=S3B, outputs=[])
